@@ -375,8 +375,10 @@ def schema_to_ron(schema, with_precedence=False):
         ", ".join(comp_to_ron(c) for c in schema["core"]),
         ", ".join(comp_to_ron(c) for c in schema["extra_core"]),
         ", ".join(comp_to_ron(c) for c in schema["build"]))
-    if with_precedence or schema.get("precedence_order"):
-        out += ", precedence_order: [%s]" % ", ".join(schema.get("precedence_order") or PRECEDENCE)
+    if schema.get("precedence_order") is not None:
+        out += ", precedence_order: [%s]" % ", ".join(schema["precedence_order"])
+    elif with_precedence:
+        out += ", precedence_order: [%s]" % ", ".join(PRECEDENCE)
     return out + ")"
 
 
